@@ -15,6 +15,8 @@ func init() { Registry["C23"] = checkC23 }
 func checkC23(r *core.Run, p *core.Program) {
 	r.Rule("C23.buffer-capacity", "data is copied into the CTE writer's scratch buffer only after the buffer has been made large enough for it: every copy(…Buffer…, src) is preceded, on every path, by ExpandBuffer(len(src)) (or a variable holding len(src)), and its result is not used to shorten what is flushed (copy() silently truncates to the destination's length, so a large string or chunk would lose its tail).")
 	checkC23BufferCapacity(r, p)
+	r.Rule("C23.byte-separators", "a writer that separates the items of its argument itself (WriteHexBytes: `if i > 0 { separator }`) decides `first item` by the index of ONE loop over the whole argument: the index tested belongs to a range/for loop over the function's own slice parameter that is not nested in another loop (an index that restarts per block drops the separator at every block boundary).")
+	checkC23ByteSeparators(r, p)
 	r.Rule("C23.units", "in the CTE array engine chunk lengths (element counts) and delivered data lengths (byte counts) are never added, subtracted or compared without conversion by the element width.")
 	r.Rule("C23.partial-element", "the carry-over of a partial element between data events is exact: the leftover holds strictly less than one element (the `not enough to complete it` test is len(data) < missing, strict), a completed element is emitted and counted once and the leftover emptied, the tail of a data event that does not fill an element (len & (width-1) bytes) goes to the leftover and is cut off the data that is emitted, and an empty data event returns before any output.")
 	r.Rule("C23.begin-resets", "every entry point that begins an array in the engine (BeginArray, BeginMedia, BeginCustomText, BeginCustomBinary) calls reset() first, and reset() re-initialises every field the engine modifies while an array is encoded (C16 reset engine).")
@@ -628,6 +630,42 @@ func c23Bits(r *core.Run, p *core.Program) {
 		})
 	}
 	r.Floor("C23.bit-order", "bit tests in the encoder", nTests, 1)
+	// the bytes of a data event are taken in order: every byte read is the head `data[0]` of the not yet consumed
+	// data, or `data[n]` right after a loop over `data[:n]`
+	if sigE := enc.Obj.Type().(*types.Signature); sigE.Params().Len() == 1 {
+		dataP := sigE.Params().At(0)
+		var prefixes []string
+		ast.Inspect(enc.Decl.Body, func(n ast.Node) bool {
+			if rs, ok := n.(*ast.RangeStmt); ok {
+				if sl, ok := stripParens(rs.X).(*ast.SliceExpr); ok && objOf(info, sl.X) == dataP && sl.Low == nil && sl.High != nil {
+					prefixes = append(prefixes, exprStr(sl.High))
+				}
+			}
+			return true
+		})
+		bad := ""
+		nReads := 0
+		ast.Inspect(enc.Decl.Body, func(n ast.Node) bool {
+			ix, ok := n.(*ast.IndexExpr)
+			if !ok || objOf(info, ix.X) != dataP {
+				return true
+			}
+			nReads++
+			if k, isC := constInt(info, ix.Index); isC && k == 0 {
+				return true
+			}
+			for _, pre := range prefixes {
+				if exprStr(ix.Index) == pre {
+					return true
+				}
+			}
+			bad = exprStr(ix)
+			return true
+		})
+		r.Check("C23.bit-order", enc.Name()+"|data bytes are taken in order", enc.Decl.Pos(), bad == "",
+			"`"+bad+"` reads a byte of the data event that is neither the head of the unconsumed data nor the byte right after a loop over a prefix: which byte supplies the bits then depends on how the array was split into data events")
+		_ = nReads
+	}
 	// decoder: nextByte |= 1 << i on '1', i from 0
 	okDec := false
 	ast.Inspect(dec.Decl.Body, func(n ast.Node) bool {
@@ -762,4 +800,91 @@ func checkC23BufferCapacity(r *core.Run, p *core.Program) {
 		})
 	}
 	r.Floor("C23.buffer-capacity", "copies into the writer's buffer", n, 1)
+}
+
+func checkC23ByteSeparators(r *core.Run, p *core.Program) {
+	pkg := p.Pkg("cte")
+	info := pkg.TypesInfo
+	nSep := 0
+	for _, f := range funcsOf(pkg) {
+		if rn := recvNamed(f.Obj); rn == nil || rn.Obj().Name() != "Writer" {
+			continue
+		}
+		sig := f.Obj.Type().(*types.Signature)
+		params := map[types.Object]bool{}
+		for i := 0; i < sig.Params().Len(); i++ {
+			if _, ok := sig.Params().At(i).Type().Underlying().(*types.Slice); ok {
+				params[sig.Params().At(i)] = true
+			}
+		}
+		if len(params) == 0 {
+			continue
+		}
+		var loops []ast.Node
+		var walk func(n ast.Node)
+		walk = func(n ast.Node) {
+			ast.Inspect(n, func(m ast.Node) bool {
+				switch x := m.(type) {
+				case *ast.RangeStmt:
+					loops = append(loops, x)
+					walk(x.Body)
+					loops = loops[:len(loops)-1]
+					return false
+				case *ast.ForStmt:
+					loops = append(loops, x)
+					walk(x.Body)
+					loops = loops[:len(loops)-1]
+					return false
+				case *ast.IfStmt:
+					// `if i > 0 { … ' ' … }` where i is a loop index
+					be, ok := stripParens(x.Cond).(*ast.BinaryExpr)
+					if !ok || be.Op != token.GTR {
+						return true
+					}
+					if k, isC := constInt(info, be.Y); !isC || k != 0 {
+						return true
+					}
+					idx := objOf(info, be.X)
+					if idx == nil || len(loops) == 0 {
+						return true
+					}
+					writesSep := false
+					ast.Inspect(x.Body, func(k ast.Node) bool {
+						if e, ok := k.(ast.Expr); ok {
+							if v, isC := constInt(info, e); isC && (v == ' ' || v == ',') {
+								writesSep = true
+							}
+						}
+						return true
+					})
+					if !writesSep {
+						return true
+					}
+					nSep++
+					okLoop := false
+					if len(loops) == 1 {
+						if rs, ok := loops[0].(*ast.RangeStmt); ok && objOf(info, rs.Key) == idx && params[objOf(info, rs.X)] {
+							okLoop = true
+						}
+						if fs, ok := loops[0].(*ast.ForStmt); ok && fs.Init != nil {
+							if as, ok := fs.Init.(*ast.AssignStmt); ok && len(as.Lhs) == 1 && objOf(info, as.Lhs[0]) == idx {
+								if c, ok := stripParens(fs.Cond).(*ast.BinaryExpr); ok && c.Op == token.LSS {
+									for po := range params {
+										if v, isVar := po.(*types.Var); isVar && isLenOf(info, c.Y, v) {
+											okLoop = true
+										}
+									}
+								}
+							}
+						}
+					}
+					r.Check("C23.byte-separators", f.Name()+"|first-item test", x.Pos(), okLoop,
+						"the `first item` test `"+exprStr(x.Cond)+"` uses an index that does not run over the whole argument in one loop: the separator is missing wherever that index restarts")
+				}
+				return true
+			})
+		}
+		walk(f.Decl.Body)
+	}
+	r.Floor("C23.byte-separators", "writers that separate the items of their argument", nSep, 1)
 }
